@@ -38,6 +38,13 @@ def render_nevra(rng, parts, style=None):
     return s
 
 
+def any_tree_arch(rng, extra=()):
+    """Mostly the common architectures; one time in eight any name of the documented table (amd64, arm64, sparc64v, ...)."""
+    if rng.random() < 0.125:
+        return rng.choice(domains.BINARY_ARCHES)
+    return rng.choice(TREE_ARCHES + list(extra))
+
+
 def gen_source_package(rng, idx):
     name = rng.choice(["glibc", "kernel", "python3", "foo-bar", "perl-Foo-Bar", "lib2to3", "a", "gtk+", "x-1-2"]) + \
         rng.choice(["", "", str(idx), "-%d" % idx])
@@ -202,7 +209,7 @@ def gen_rpms_op(rng, pool, invalid=None):
         parts, category = pkg["src"], "source"
     else:
         parts, category = rng.choice(pkg["subs"])
-    args = {"variant": rng.choice(VARIANTS), "arch": rng.choice(TREE_ARCHES), "nevra": render_nevra(rng, parts),
+    args = {"variant": rng.choice(VARIANTS), "arch": any_tree_arch(rng), "nevra": render_nevra(rng, parts),
             "path": "%s/%s/os/Packages/%s/%s.rpm" % (rng.choice(VARIANTS), rng.choice(TREE_ARCHES), parts["name"][0].lower(),
                                                     "%(name)s-%(version)s-%(release)s.%(arch)s" % parts),
             "sigkey": rng.choice([None, None, "fd431d51", "FD431D51", "Fd431d51", "4AE0493B", "81b46521", "",
@@ -312,7 +319,7 @@ def gen_module_uid(rng, nparts=None):
 def gen_modules_op(rng, invalid=None):
     u, s = gen_module_uid(rng)
     cat = rng.choice(domains.RPM_CATEGORIES)
-    args = {"variant": rng.choice(VARIANTS), "arch": rng.choice(TREE_ARCHES + ["src", "noarch"]), "uid": s,
+    args = {"variant": rng.choice(VARIANTS), "arch": any_tree_arch(rng, ["src", "noarch"]), "uid": s,
             "koji_tag": rng.choice(["module-nodejs-10-8010020190612143724-cdc1202b", "tag-1", "module-x"]),
             "modulemd_path": "%s/%s/os/repodata/%s-modules.yaml.gz" % (rng.choice(VARIANTS), rng.choice(TREE_ARCHES),
                                                                      text.chars(rng, HEX, 8, 8)),
@@ -364,7 +371,7 @@ def gen_extra_op(rng, invalid=None):
     checksums = {}
     for t in rng.sample(["md5", "sha1", "sha256", "sha512"], n):
         checksums[t] = text.chars(rng, HEX, 32, 64)
-    args = {"variant": rng.choice(VARIANTS), "arch": rng.choice(TREE_ARCHES + ["src"]),
+    args = {"variant": rng.choice(VARIANTS), "arch": any_tree_arch(rng, ["src"]),
             "path": "%s/%s/os/%s" % (rng.choice(VARIANTS), rng.choice(TREE_ARCHES), rng.choice(["GPL", "EULA", "RPM-GPG-KEY", "media.repo", "a/b/c.txt"])),
             "size": rng.choice([0, 1, 18092, 2 ** 32 + 1]), "checksums": checksums}
     if rng.random() < 0.1:
